@@ -13,6 +13,8 @@ def _build(case):
         ver, L = P.FIXED[case["fixed"]]
     else:
         ver, L = case["version"], case["lines"]
+    if ver not in ("gfa1", "gfa2"):
+        return None          # a Gfa of unknown version holding queued lines: oracle only (the model has no queue here)
     vl = max(1, case.get("vlevel", 1))
     g = gfapy.Gfa(vlevel=vl, version=ver)
     ops, exp = [op("g.new", ver)], ["ok"]
